@@ -69,6 +69,7 @@ type Ctx struct {
 	Shard   int
 	NShards int
 	OutDir  string
+	Scale   int // percent of the thorough case counts this variant explores (100 = all)
 
 	// replay selection: when ReplayFamily != "" only that family/index is executed.
 	ReplayFamily string
@@ -91,6 +92,13 @@ func (c *Ctx) N(quick, thorough int64) int64 {
 	n := quick
 	if c.Thorough() {
 		n = thorough
+		// -scale P (per variant, from checks/Cxx.json): this variant explores P percent of the thorough case counts
+		// (never fewer than the quick tier does); used to size the slow race-detector variants
+		if c.Scale > 0 && c.Scale < 100 {
+			if n = thorough * int64(c.Scale) / 100; n < quick {
+				n = quick
+			}
+		}
 	}
 	// development aid only (never set by the registered commands): cap every family's case count
 	if v := os.Getenv("VERIF_DEV_N"); v != "" {
@@ -121,8 +129,13 @@ func Main(id string, body func(c *Ctx)) {
 	flag.IntVar(&c.Shard, "shard", 0, "shard index")
 	flag.IntVar(&c.NShards, "nshards", 1, "number of shards")
 	flag.StringVar(&c.OutDir, "out", "", "output directory for summary / sidecars")
+	flag.IntVar(&c.Scale, "scale", 100, "percent of the thorough case counts to explore (thorough tier only)")
 	flag.StringVar(&replay, "replay", "", "replay file (a violation JSON)")
 	flag.Parse()
+	// development aid only (never set by the registered commands): scale every thorough variant
+	if v := os.Getenv("VERIF_DEV_SCALE"); v != "" && c.Scale == 100 {
+		fmt.Sscan(v, &c.Scale)
+	}
 	if c.OutDir == "" {
 		d, err := os.MkdirTemp("", "verif-"+id+"-")
 		if err != nil {
@@ -155,6 +168,9 @@ func Main(id string, body func(c *Ctx)) {
 	f, err := os.OpenFile(fmt.Sprintf("%s/case_%d.txt", c.OutDir, c.Shard), os.O_CREATE|os.O_RDWR|os.O_TRUNC, 0o644)
 	if err == nil {
 		c.caseFile = f
+	}
+	if c.Thorough() && c.Scale > 0 && c.Scale < 100 {
+		c.Note(fmt.Sprintf("this variant explores %d%% of the thorough case counts (-scale %d)", c.Scale, c.Scale))
 	}
 	body(c)
 	c.finish(true)
